@@ -593,7 +593,7 @@ pub fn run(ctx: &Ctx) -> Outcome {
     }
     model_selftest();
     let workers = ctx.workers;
-    let total = if ctx.miri() { 4 } else { ctx.vol(3_000, 40_000) };
+    let total = if ctx.miri() { 4 } else { ctx.vol(6_000, 100_000) };
     let token_cap = if ctx.miri() { 8 } else if ctx.quick() { 40 } else { 96 };
     let mut out = fw::par(ctx, workers, |w, mut rng| {
         let mut o = Outcome::new();
